@@ -240,6 +240,9 @@ func build(t *TV) (reflect.Value, bool) {
 				case strings.HasPrefix(ks, "~ns:"): // a named-string key held in the interface
 					nb, _ := hex.DecodeString(ks[4:])
 					k = reflect.ValueOf(NString(nb))
+				case strings.HasPrefix(ks, "~f64:"): // a float64 key by its bits (NaN included: such a key can be iterated but not looked up)
+					bits, _ := strconv.ParseUint(ks[5:], 16, 64)
+					k = reflect.ValueOf(math.Float64frombits(bits))
 				case strings.HasPrefix(ks, "~int:"):
 					i, _ := strconv.Atoi(ks[5:])
 					k = reflect.ValueOf(i)
